@@ -407,6 +407,13 @@ class Interp:
                     env.vars.pop(tgt.id, None)
                 elif isinstance(tgt, ast.Subscript):
                     self.models.delitem(self, self.eval(tgt.value, env), self.eval(tgt.slice, env))
+                elif isinstance(tgt, ast.Attribute):
+                    o = self.eval(tgt.value, env)
+                    if isinstance(o, (Obj, ClassInfo)) and tgt.attr in o.attrs:
+                        self.emit("setattr", obj=o, attr=tgt.attr, value=None, deleted=True, shared=getattr(o, "shared", True) and self.init_depth == 0)
+                        del o.attrs[tgt.attr]
+                    else:
+                        raise self.exc("AttributeError", tgt.attr)
                 else:
                     raise self.unsupported("del target")
         else:
@@ -584,6 +591,15 @@ class Interp:
         val = self.eval(st.exc, env)
         if isinstance(val, (ClassInfo, ExtRef)):
             val = self.call(val, [], {})
+        if isinstance(val, (Obj, ExtObj)):
+            scan2: Any = env
+            active = None
+            while active is None and scan2 is not None:
+                active = scan2.vars.get("__active_exception__")
+                scan2 = scan2.parent
+            if active is not None and active is not val:
+                val.attrs.setdefault("__context__", active)
+            val.attrs.setdefault("__cause__", None)
         if st.cause is not None:
             cause = self.eval(st.cause, env)
             if isinstance(val, (Obj, ExtObj)):
@@ -892,6 +908,8 @@ class Interp:
         if isinstance(dec, ExtObj) and dec.kind == "cache_decorator":
             fn.cached = True
             return fn
+        if isinstance(dec, ExtMethod) and dec.kind == "property" and dec.name == "setter":
+            dec = ExtObj("property_setter", {"prop": dec.recv})
         if isinstance(dec, ExtObj) and dec.kind == "property_setter":
             prop = dec.attrs["prop"]
             new = FuncRef(prop.info, prop.env, prop.defaults, "property")
@@ -928,7 +946,7 @@ class Interp:
     def _make_dataclass(self, cls: Any, opts: dict) -> Any:
         if not isinstance(cls, ClassInfo):
             raise self.unsupported("dataclass on non-class")
-        cls.dataclass = {"frozen": bool(opts.get("frozen", False)), "slots": bool(opts.get("slots", False))}
+        cls.dataclass = {"frozen": bool(opts.get("frozen", False)), "slots": bool(opts.get("slots", False)), "order": bool(opts.get("order", False)), "kw_only": bool(opts.get("kw_only", False)), "eq": bool(opts.get("eq", True))}
         return cls
 
     def make_class(self, node: ast.ClassDef, env: Env) -> ClassInfo:
@@ -1255,14 +1273,21 @@ class Interp:
                 self.models.ext_init(self, obj, owner, args, kwargs)
         return obj
 
+    def _field_opt(self, default: Any, opt: str, dflt: Any) -> Any:
+        if isinstance(default, ExtObj) and default.kind == "dataclasses.Field":
+            return default.attrs.get(opt, dflt)
+        return dflt
+
     def _dataclass_init(self, obj: Obj, cls: ClassInfo, args: list, kwargs: dict) -> None:
         fields = self.dataclass_fields(cls)
-        names = [n for n, _ in fields]
+        cls_kw_only = any(isinstance(c, ClassInfo) and c.dataclass and c.dataclass.get("kw_only") for c in cls.mro)
+        init_names = [n for n, d in fields if self._field_opt(d, "init", True) is not False]
+        names = [n for n, d in fields if n in init_names and not self._field_opt(d, "kw_only", cls_kw_only)]
         if len(args) > len(names):
-            raise self.exc("TypeError", f"{cls.name}.__init__() takes {len(names)} positional arguments")
+            raise self.exc("TypeError", f"{cls.name}.__init__() takes {len(names) + 1} positional arguments but {len(args) + 1} were given")
         given: dict[str, Any] = dict(zip(names, args))
         for k, v in kwargs.items():
-            if k not in names:
+            if k not in init_names:
                 raise self.exc("TypeError", f"{cls.name}.__init__() got an unexpected keyword argument '{k}'")
             if k in given:
                 raise self.exc("TypeError", f"{cls.name}.__init__() got multiple values for '{k}'")
@@ -1275,6 +1300,8 @@ class Interp:
                     val = self.call(default.attrs["default_factory"], [], {})
                 elif "default" in default.attrs:
                     val = default.attrs["default"]
+                elif name not in init_names:
+                    continue  # init=False without default: left unset (set by __post_init__)
                 else:
                     raise self.exc("TypeError", f"{cls.name}.__init__() missing required argument '{name}'")
             elif default is not MISSING:
@@ -1285,6 +1312,7 @@ class Interp:
             self.emit("setattr", obj=obj, attr=name, value=val, init=True)
         post = self.lookup_class_attr(cls, "__post_init__")
         if post is not MISSING:
+            obj.frozen_ok, saved = False, obj.frozen_ok
             self.call(self.bind(post, obj, cls), [], {})
 
     def lookup_class_attr(self, cls: ClassInfo, name: str, after: Any = None) -> Any:
@@ -1347,6 +1375,11 @@ class Interp:
                 m = self.models.ext_base_attr(self, obj, eb, name)
                 if m is not MISSING:
                     return m
+            if name == "__dict__" and self.slots_of(obj.cls) is None:
+                return ADict([[k, v] for k, v in obj.attrs.items()])
+            ga = self.lookup_class_attr(obj.cls, "__getattr__")
+            if ga is not MISSING and not name.startswith("__"):
+                return self.call(self.bind(ga, obj, obj.cls), [name], {})
             raise self.exc("AttributeError", f"'{obj.cls.name}' object has no attribute '{name}'")
         if isinstance(obj, ClassInfo):
             if name == "__name__":
@@ -1579,15 +1612,16 @@ class Interp:
                     m = self.lookup_class_attr(x.cls, "__eq__")
                     if m is not MISSING:
                         r = self.call(self.bind(m, x, x.cls), [y], {})
-                        if isinstance(r, ExtObj) and r.kind == "NotImplemented":
+                        if (isinstance(r, ExtObj) and r.kind == "NotImplemented") or (isinstance(r, ExtRef) and r.name == "builtins.NotImplemented"):
                             continue
                         return r
             if isinstance(a, Obj) and isinstance(b, Obj):
                 if a.tuple_items is not None and b.tuple_items is not None:
                     return self.eq(a.tuple_items, b.tuple_items)
-                if a.cls is b.cls and any(isinstance(c, ClassInfo) and c.dataclass for c in a.cls.mro):
-                    fa = [a.attrs.get(n) for n, _ in self.dataclass_fields(a.cls)]
-                    fb = [b.attrs.get(n) for n, _ in self.dataclass_fields(b.cls)]
+                if a.cls is b.cls and any(isinstance(c, ClassInfo) and c.dataclass and c.dataclass.get("eq", True) for c in a.cls.mro):
+                    cmp_fields = [n for n, d in self.dataclass_fields(a.cls) if self._field_opt(d, "compare", True) is not False]
+                    fa = [a.attrs.get(n) for n in cmp_fields]
+                    fb = [b.attrs.get(n) for n in cmp_fields]
                     return self.eq(tuple(fa), tuple(fb))
             if isinstance(a, Obj) and a.tuple_items is not None and isinstance(b, tuple):
                 return self.eq(a.tuple_items, b)
@@ -1821,9 +1855,13 @@ class Interp:
             else:
                 fv: ast.FormattedValue = v  # type: ignore[assignment]
                 val = self.eval(fv.value, env)
-                if fv.conversion == 114:  # !r
+                if fv.conversion == 114 and fv.format_spec is None:  # !r
                     parts.append(self.models.to_repr(self, val))
                 elif fv.format_spec is not None:
+                    if fv.conversion == 114:
+                        val = self.models.to_repr(self, val)
+                    elif fv.conversion == 115:
+                        val = self.models.to_str(self, val)
                     spec = self.eval(fv.format_spec, env)
                     from . import models_std as _ms
 
@@ -1950,6 +1988,14 @@ class Interp:
             m = self.lookup_class_attr(a.cls, dunder)
             if m is not MISSING:
                 return self.call(self.bind(m, a, a.cls), [b], {})
+            if isinstance(b, Obj):
+                refl = {ast.Lt: "__gt__", ast.LtE: "__ge__", ast.Gt: "__lt__", ast.GtE: "__le__"}[op]
+                m = self.lookup_class_attr(b.cls, refl)
+                if m is not MISSING:
+                    return self.call(self.bind(m, b, b.cls), [a], {})
+                if a.cls is b.cls and any(isinstance(c, ClassInfo) and c.dataclass and c.dataclass.get("order") for c in a.cls.mro):
+                    cmp_fields = [n for n, d in self.dataclass_fields(a.cls) if self._field_opt(d, "compare", True) is not False]
+                    return self.compare(op, tuple(a.attrs.get(n) for n in cmp_fields), tuple(b.attrs.get(n) for n in cmp_fields))
         from . import models_std as _ms
 
         if _ms.is_concrete(a) and _ms.is_concrete(b):
@@ -2033,7 +2079,7 @@ class Interp:
                 if isinstance(y, Unknown) and isinstance(x, (tuple, AList)):
                     self.emit("alloc", what="seq*n", size=y)
                     return fresh_unknown("sequence of unknown size")
-        if isinstance(a, (int, float)) and isinstance(b, (int, float)) and not isinstance(a, bool) | False:
+        if isinstance(a, (int, float)) and isinstance(b, (int, float)):
             try:
                 if op is ast.Add:
                     return a + b
@@ -2064,12 +2110,36 @@ class Interp:
         from . import models_std as _ms
 
         if op is ast.Mod and isinstance(a, (str, bytes)):
-            if _ms.is_concrete(b):
+            if isinstance(b, ADict) and all(_ms.is_concrete(k) and _ms.is_concrete(v) for k, v in b.pairs):
+                b = {k: v for k, v in b.pairs}
+            if _ms.is_concrete(b) or isinstance(b, dict):
                 try:
                     return a % b
                 except (TypeError, ValueError) as e:
                     raise self.exc(type(e).__name__, str(e))
             return sstr(Atom("pct-format", nonempty=None))
+        def _keys_as_set(x: Any) -> Any:
+            if isinstance(x, ExtObj) and x.kind == "dict_view" and x.attrs["what"] in ("keys", "items"):
+                return ASet(list(self.models.view_items(x)))
+            return x
+
+        if op in (ast.BitOr, ast.BitAnd, ast.Sub, ast.BitXor) and (isinstance(a, ExtObj) or isinstance(b, ExtObj)):
+            a2, b2 = _keys_as_set(a), _keys_as_set(b)
+            if isinstance(a2, ASet) and isinstance(b2, ASet):
+                a, b, inplace = a2, b2, False
+        if op is ast.BitOr and isinstance(a, ADict) and isinstance(b, ADict):
+            merged = ADict([[k, v] for k, v in a.pairs], kind=a.kind)
+            for k, v in b.pairs:
+                i = self.models.dict_find(self, merged, k)
+                if i is None:
+                    merged.pairs.append([k, v])
+                else:
+                    merged.pairs[i][1] = v
+            if inplace:
+                self.models.list_mutated(self, a, "update") if False else None
+                a.pairs[:] = merged.pairs
+                return a
+            return merged
         if isinstance(a, ASet) and isinstance(b, ASet) and op in (ast.BitOr, ast.BitAnd, ast.Sub, ast.BitXor):
             def has(st: ASet, x: Any) -> bool:
                 return self.contains(st, x) is True or (self.contains(st, x) is not False and self.truth(self.contains(st, x), "set-op"))
